@@ -53,6 +53,7 @@ type Solver struct {
 	out   *bufio.Reader
 	log   *os.File
 	dead  bool
+	hung  bool
 	tmoMs int
 }
 
@@ -116,9 +117,33 @@ func (s *Solver) readLine() (string, error) {
 	return strings.TrimSpace(line), err
 }
 
+var errSolverHung = fmt.Errorf("solver hung")
+
+type lineRes struct {
+	s   string
+	err error
+}
+
+func (s *Solver) readLineTimeout(d time.Duration) (string, error) {
+	ch := make(chan lineRes, 1)
+	go func() {
+		l, e := s.readLine()
+		ch <- lineRes{l, e}
+	}()
+	select {
+	case r := <-ch:
+		return r.s, r.err
+	case <-time.After(d):
+		return "", errSolverHung
+	}
+}
+
 // Check runs (check-sat-assuming (lits...)) (or plain check-sat when lits is empty).
 func (s *Solver) Check(lits ...string) string {
 	if s.dead {
+		if s.hung {
+			return "unknown"
+		}
 		return "error"
 	}
 	t0 := time.Now()
@@ -129,7 +154,15 @@ func (s *Solver) Check(lits ...string) string {
 	}
 	res := "error"
 	for {
-		line, err := s.readLine()
+		line, err := s.readLineTimeout(time.Duration(s.tmoMs)*time.Millisecond + 15*time.Second)
+		if err == errSolverHung {
+			// the solver ignored its own timeout: kill it; the caller restarts one for the next path
+			s.dead = true
+			s.hung = true
+			s.cmd.Process.Kill()
+			res = "unknown"
+			break
+		}
 		if err != nil {
 			s.dead = true
 			res = "error"
